@@ -110,10 +110,20 @@ Definition check_degenerate (user stored : list pt) (a vol : Q) (raised : bool) 
 Definition check_err (user : list pt) (code : Z) : Z :=
   if (err_code (stored_vertices user) =? code)%Z then 0%Z else 1%Z.
 
-(* grid total *)
+(* grid total: the per-voxel rounding budgets of check_geom added up (small cells far from the axis are
+   ill-conditioned: relative error ~ 2^-53 R z / cell^2), plus 2^-44 relative for the summation itself *)
+Definition vol_budget (pi : Q) (l : list pt) : Q :=
+  match centroid_r l with
+  | None => 0
+  | Some c =>
+    let ta := tol_area l in
+    let tx := tol_centroid (cyc_sum_r agx l) (px c) l in
+    Qred (2 * pi * (tx * area_r l + Qabs (px c) * ta) + pow2 (-50) * Qabs (volume_r pi l))
+  end.
 Definition check_total (pi : Q) (polys : list (list pt)) (total : Q) : Z :=
   let m := total_volume_r pi polys in
-  if within (pow2 (-40) * Qabs m) m total then 0%Z else 1%Z.
+  let tol := Qred (Qsum (map (fun v => vol_budget pi (normalise v)) polys)) + pow2 (-44) * Qabs m in
+  if within tol m total then 0%Z else 1%Z.
 
 (* ---- emissivity ---------------------------------------------------------------------------------- *)
 Definition sqrt_tbl (tbl : list (Q * Q)) (u : Q) : Q :=
